@@ -40,6 +40,8 @@ def run(ctx):
                      "an exception or failing scheduler command ends the run without saving what was accepted", loc(sw_call, run_f.module))
     rule_exit_persists(ctx, r1)
     rule_close_writes(ctx, r1)
+    from .c07 import rule_tracked_dump
+    rule_tracked_dump(ctx, r1)
 
     # ---------------- R2 hash only after accept
     r2 = ctx.rule("R2", "a target's spec hash is recorded only if its submission was accepted")
